@@ -31,6 +31,8 @@ def main(tier, replay=None):
     c.log("proofs:", "ok" if proofs_ok else c.proof_break)
     counters = PC.new_counters()
     n = 340 if tier == "quick" else 1800
+    if c.escalated:   # a modelled Go function changed since the pin (c.drift): look harder, no verdict from drift alone
+        n *= 3
     base = ["-warmup", "7"]
     stats_all = []
     nbad = 0
